@@ -2,6 +2,7 @@
 forward references (postponed evaluation) and order of first use across a family."""
 from __future__ import annotations
 
+import multiprocessing as mp
 import sys
 import threading
 
@@ -140,6 +141,79 @@ def forward_refs(rep, tier):
     rep.cov["traces_validated_against_impl"] += n
 
 
+def _run_postponed(job):
+    """one behaviour of sys/Postponed.tla in a fresh universe: Parent and Inner exist from the start (Inner's annotation names
+    "Later" as a forward reference), DefineLater defines it at its own step, every call is compared with the outcome TLC emitted"""
+    parent_t, inner_t, later_t, beh = job
+    from mashumaro.exceptions import UnresolvedTypeReferenceError
+    from harness.real import abstract_exception
+    from harness.terms import Registry, abstract_value, concretize_type, concretize_value
+    reg = Registry()
+    reg.defer_fwd = True
+    out = {"events": 0, "mism": []}
+    try:
+        P = concretize_type(parent_t, reg)
+        for idx, ev in enumerate(beh):
+            out["events"] += 1
+            if ev[0] == "DefineLater":
+                concretize_type(later_t, reg)
+                continue
+            op, arg, exp = ev[1], ev[2], ev[3]
+            try:
+                if op.endswith(".to"):
+                    act = abstract_value(concretize_value(arg, reg).to_dict(), reg)
+                    ok = exp[0] != "err" and wire_match(canon(exp), act)
+                else:
+                    act = ["ok", abstract_value(P.from_dict(concretize_value(arg, reg)), reg)]
+                    ok = terms_equal(exp, act)
+            except Exception as e:  # noqa: BLE001
+                unresolved = isinstance(e, UnresolvedTypeReferenceError) or isinstance(e.__context__, UnresolvedTypeReferenceError) \
+                    or isinstance(e.__cause__, UnresolvedTypeReferenceError)
+                act = ["err", ["Unresolved"]] if unresolved else abstract_exception(e, reg)
+                ok = exp == ["err", ["Unresolved"]] and unresolved
+            if not ok:
+                out["mism"].append({"clause": "postponed-evaluation", "step": idx, "history": beh[: idx + 1], "expected": exp, "actual": act,
+                                    "family": ["Postponed", parent_t[3], inner_t[3]], "replay_module": "harness.checks.c14_extra"})
+                break
+    finally:
+        reg.close()
+    return out
+
+
+def postponed_histories(rep, tier, wd):
+    """sys/Postponed.tla: every history of calls and of the late definition, per (parent compiled eagerly / lazily) x (nested class
+    plain / mixin); Faithful + NoRealToStub by TLC, every behaviour replayed; the deviant mechanism is refuted by TLC"""
+    jobs = []
+    ml = 4 if tier == "quick" else 5
+    for pmode in ("eager", "lazy"):
+        for ikind in ("plain", "mixin"):
+            cfg = core.cfg_text("MC_Postponed.cfg", ParentMode=f'"{pmode}"', InnerKind=f'"{ikind}"', MaxLen=ml)
+            r = core.run_mc_with_table("MC_Postponed", wd, [(["date", "int"], [["str", "2024-02-28"]])], cfg=cfg, rep=rep,
+                                       label=f"MC_Postponed parent={pmode} nested={ikind} len<={ml}: Faithful NoRealToStub")
+            if r.violated:
+                raise tlc.MachineryError(f"model property violated on the reference spec: {r.violated}")
+            jobs += [(p[1], p[2], p[3], p[4]) for p in r.printed if p[0] == "beh"]
+    ctx = mp.get_context("fork")
+    n = 0
+    with ctx.Pool(16) as pool:
+        for out in pool.imap_unordered(_run_postponed, jobs, chunksize=32):
+            n += out["events"]
+            for m in out["mism"]:
+                rep.violation(m["clause"], m)
+    rep.count(n)
+    rep.cov["traces_validated_against_impl"] += len(jobs)
+    import hashlib
+    from harness.terms import jkey
+    for j in jobs:
+        rep.nontrivial(hashlib.sha1(jkey(list(j)).encode()).hexdigest())
+    cfg = core.cfg_text("MC_Postponed.cfg", ParentMode='"lazy"', InnerKind='"plain"', MaxLen=3, Mech='"strict"')
+    try:
+        rd = core.run_mc_with_table("MC_Postponed", wd, [(["date", "int"], [["str", "2024-02-28"]])], cfg=cfg)
+        rep.selftests["deviant_strict_nested_compilation_refuted"] = "Faithful" in rd.violated
+    except tlc.MachineryError as e:
+        rep.selftests["deviant_strict_nested_compilation_refuted"] = "Faithful" in str(e)
+
+
 def discriminated_first_use(rep, wd):
     """the per-format method of a discriminated variant is compiled on demand by whoever uses the variant first under that
     format -- the class-level dispatch or a holder nesting it: both orders give the reference round trip (MC_C04 dfvec records)"""
@@ -156,6 +230,7 @@ def run(rep, tier, seed):
     forced_schedules(rep, tier, wd)
     stress(rep, tier, seed, wd)
     forward_refs(rep, tier)
+    postponed_histories(rep, tier, wd)
     discriminated_first_use(rep, wd)
 
 
